@@ -27,9 +27,9 @@ from vf.instruments import pipeline_main
 LEVEL = "exploration"
 RULE = (
     "per table (300..900 PSMs, tie-free features, spectrum multiplicity 1..4, rows shuffled or grouped by spectrum, "
-    "dedup on/off, learners linear / svc / an order-sensitive online learner / a predict_proba-only k-NN): baseline vs variants {each of the six chunk-size constants in "
+    "dedup on/off, learners linear / svc / an order-sensitive online learner / a predict_proba-only logistic learner whose probabilities are strictly monotone in a linear score, hence tie-free): baseline vs variants {each of the six chunk-size constants in "
     "{1,2,3,7,n-1,n,n+1,ceil(n/2), sizes leaving a 1-row last chunk}, workers {2,3,4,8,16} with seeded delays inside every joblib task function (vf.instruments.scheduler) and inside fit/score, "
-    "Parquet row groups {1,3,prime,n,default}, pairs of constants, and Parquet or several workers combined with a chunk size}; env class: the same comparison with MOKAPOT_* variables in fresh "
+    "Parquet row groups {1,3,prime,n,default}, one variant for every further integer tunable discovered in mokapot.constants, pairs of constants, and Parquet or several workers combined with a chunk size}; env class: the same comparison with MOKAPOT_* variables in fresh "
     "interpreters; schedule class: tie-heavy scores, identical chunk sizes, 1 worker vs 2..8 workers under perturbed task schedules, result files compared byte for byte. Non-trivial = a variant whose chunk size is smaller than the table, or >1 worker with >=2 "
     "threads observed, or Parquet input; distinct = (table seed, variant)."
 )
@@ -175,11 +175,9 @@ def run_inproc(case):
         pin = psm.write_pin(tab, d / "t.pin")
         # 'online' is a deterministic learner whose result depends on the order of its training rows: if chunking or
         # thread timing changed the order in which training rows are assembled, its scores would change
-        common = dict(learner=["linear", "svc", "online", "knn:proba"][case["index"] % 4], folds=int(2 + case["index"] % 3), seed=int(rng.integers(1 << 30)),
+        common = dict(learner=["linear", "svc", "online", "logit:proba"][case["index"] % 4], folds=int(2 + case["index"] % 3), seed=int(rng.integers(1 << 30)),
                       test_fdr=0.1, train_fdr=0.1, max_iter=2, dedup=bool(case["index"] % 4 != 3), rollup=True,
                       peps_algorithm=["kde_nnls", "qvality", "kde_nnls"][case["index"] % 3])
-        if common["learner"] == "knn:proba":
-            common["peps_algorithm"] = "qvality"  # scores in [0,1] with a pile-up at 0: the KDE pi0 slope often fails
         if tab.get("db") is not None:
             from vf.gens import prot
 
